@@ -8,7 +8,11 @@ PKG = "google.example.doc.v1"
 TARGETS = [
     ("message", [4, 0]), ("field", [4, 0, 2, 1]), ("request", [4, 1]), ("enum", [5, 0]), ("enum_value", [5, 0, 2, 1]),
     ("service", [6, 0]), ("method", [6, 0, 2, 0]),
+    # one request message shared by a unary, a server-streaming, a client-streaming and a bidirectional rpc: its comment is
+    # rendered into the "request (...)" / "requests (Iterator[...])" entry of each of the four method docstrings of both clients
+    ("stream_request", [4, 2]),
 ]
+STREAM_METHODS = {"run_query": "unary", "watch_queries": "server-streaming", "upload_queries": "client-streaming", "chat_queries": "bidirectional"}
 
 BENIGN = {
     "message": "A thing that the service keeps.\n It has a name and a note, and the note may be long enough to need wrapping when it is rendered.",
@@ -18,6 +22,7 @@ BENIGN = {
     "enum_value": "A big thing.",
     "service": "Keeps things.",
     "method": "Fetches a thing. Fails with NOT FOUND when there is none:\n the caller should then create it.",
+    "stream_request": "The query to run, with its dialect; sent once, or as a stream of queries that the server answers in order.",
 }
 
 # hazard class -> comment texts
@@ -40,6 +45,12 @@ def build(comments):
     req.field("name", 1, "string", required=True, ref="doc.example.com/Thing")
     svc = f.service("Docs", host="doc.example.com")
     svc.rpc("GetThing", req.fqn, thing.fqn, http=("get", "/v1/{name=things/*}"), sigs=["name"])
+    q = f.message("Query")
+    q.field("text", 1, "string").field("dialect", 2, "string")
+    svc.rpc("RunQuery", q.fqn, thing.fqn, http=("post", "/v1/queries:run"), body="*")
+    svc.rpc("WatchQueries", q.fqn, thing.fqn, ss=True, http=("post", "/v1/queries:watch"), body="*")
+    svc.rpc("UploadQueries", q.fqn, thing.fqn, cs=True, http=("post", "/v1/queries:upload"), body="*")
+    svc.rpc("ChatQueries", q.fqn, thing.fqn, cs=True, ss=True, http=("post", "/v1/queries:chat"), body="*")
     for tgt, path in TARGETS:
         c = comments.get(tgt)
         if c is None:
@@ -120,6 +131,8 @@ def docstrings(files):
                     out["field"].append(d)
                 elif n.name == "GetThingRequest":
                     out["request"].append(d)
+                elif n.name == "Query":
+                    out["stream_request"].append(d)
                 elif n.name == "Kind":
                     out["enum"].append(d)
                     out["enum_value"].append(d)
@@ -128,6 +141,9 @@ def docstrings(files):
                     for m in n.body:
                         if isinstance(m, (ast.FunctionDef, ast.AsyncFunctionDef)) and m.name == "get_thing":
                             out["method"].append(ast.get_docstring(m, clean=False) or "")
+                            out["request"].append(ast.get_docstring(m, clean=False) or "")     # "request (...): The request object. <comment>"
+                        if isinstance(m, (ast.FunctionDef, ast.AsyncFunctionDef)) and m.name in STREAM_METHODS:
+                            out["stream_request"].append(ast.get_docstring(m, clean=False) or "")
     return out
 
 
